@@ -677,7 +677,7 @@ func (x *Exec) callByContractFull(s *State, c *Contract, name string, pnames []s
 	if c.Pure && len(outs) == 1 {
 		var as []*Term
 		as = append(as, pvals...)
-		s.assume(Eq(outs[0], mk("pure."+name, outs[0].Sort, as...)))
+		s.assume(Eq(outs[0], mk(pureName(name), outs[0].Sort, as...)))
 	}
 	for _, e := range c.Ensures {
 		s.assume(x.trBool(e.Expr, envPost))
@@ -748,4 +748,15 @@ func (x *Exec) funcCandidates(v *types.Var) []*types.Func {
 		return nil
 	}
 	return out
+}
+
+// pureName: SMT function symbol for the pure-function view of a Go function.
+func pureName(name string) string {
+	return "pure." + strings.Map(func(r rune) rune {
+		switch r {
+		case '(', ')', '*', ' ', '[', ']', '$':
+			return '_'
+		}
+		return r
+	}, name)
 }
